@@ -28,10 +28,14 @@ RULE = (
     "a third shape; exact for rational data, 1e-9 otherwise; asking twice gives the identical value. Part "
     "'process' executes generated histories in fresh interpreters with PYTHONHASHSEED 0, 1, 2 (cold caches) and in "
     "one interpreter after warming the module-level memo tables with degrees 1..6, and compares a canonical digest "
-    "of every answer byte for byte. Non-trivial: an operator whose operand was already split by an earlier "
+    "of every answer byte for byte. Parts 'repeat': two operands in general position go, as the same two objects, "
+    "through 2-4 operators / containment questions (each operator splits both boundaries in place); every answer "
+    "(kind, area, membership on witness points) is compared with the answer of operands built afresh for that one "
+    "question (which is itself checked against the model region; when it is wrong or raises the case is counted, "
+    "that is C01's business). Non-trivial: an operator whose operand was already split by an earlier "
     "operator, or a query after scale/rotate."
 )
-MANDATORY = ["reused-split-operand", "query-after-scale-or-rotate", "transform", "binop", "process", "kind:connected", "kind:disjoint"]
+MANDATORY = ["repeat:crossing", "repeat:curved", "reused-split-operand", "query-after-scale-or-rotate", "transform", "binop", "process", "kind:connected", "kind:disjoint"]
 
 
 def rebuild(obj):
@@ -220,6 +224,148 @@ def judge(ctx, case):
         ctx.violation("history", kind, case, detail[:1500], "exact" if exact else "float")
 
 
+# ------------------------------------------- several operators, same operands
+def judge_repeat(ctx, case):
+    """A and B go through several operators and containment questions as the
+    same two objects (every operator splits both boundaries in place at the
+    crossing points); each answer is compared with the answer of operands
+    built afresh for that one question, and with the model region."""
+    from .. import probes as _pr
+
+    a, b, ops = case["a"], case["b"], case["ops"]
+    ca, cb = lib.spec_curves(a), lib.spec_curves(b)
+    if not ca or not cb:
+        ctx.count("skipped-singleton")
+        return
+    cls, ncross = oc.classify_pair(ca, cb)
+    if cls != "general":
+        ctx.count("skipped-" + cls)
+        return
+    curved = any(len(sg) > 2 for c in ca + cb for sg in c)
+    rational = all(rg.curve_is_exact(c) for c in ca + cb) and not curved
+    margin = oc.MARGIN_CURVED if curved else _pr.MARGIN
+    ra, rb = lib.spec_region(a), lib.spec_region(b)
+    pts = [q for q, _ in oc.query_points(ca + cb, case["us"], curved, max_witness=40) if ra.clear(q, margin) and rb.clear(q, margin)]
+    size = max(rg.curve_size(c) for c in ca + cb)
+    strata = ["repeat", "repeat:crossing" if ncross else "repeat:no-crossing"] + (["repeat:curved"] if curved else [])
+    ctx.evaluated(case, ncross > 0 and len(ops) >= 2, strata)
+
+    def ask(A, B, st_):
+        op = st_["op"]
+        X, Y = (B, A) if st_.get("swap") else (A, B)
+        if op == "in":
+            return ("in", X in Y)
+        if op == "~":
+            X = ~X
+            op = "&"
+        R = oc.apply_op(op, X, Y)
+        k = lib.kind_of(R)
+        if k in ("empty", "whole"):
+            return (k, 0.0, tuple([k == "whole"] * len(pts)))
+        return (k, float(R), tuple(q in R for q in pts))
+
+    def truth(st_):
+        op = st_["op"]
+        X, Y = (rb, ra) if st_.get("swap") else (ra, rb)
+        if op == "in":
+            return None
+        if op == "~":
+            X, op = ~X, "&"
+        M = oc.model_op(op, X, Y)
+        return tuple(M.contains(q) for q in pts)
+
+    try:
+        with call_limit(120):
+            A, B = lib.build(a), lib.build(b)
+    except BaseException as exc:
+        ctx.count("construction-raised:" + innermost_shapepy_frame(exc))
+        return
+    for n, st_ in enumerate(ops):
+        if st_["op"] == "^" and not rational:
+            continue  # open finding of C01 (xor on float/curved operands)
+        try:
+            with call_limit(300):
+                fresh = ask(lib.build(a), lib.build(b), st_)
+        except BaseException as exc:
+            ctx.count("fresh-operands-raised:" + innermost_shapepy_frame(exc))  # C01's business
+            return
+        tr = truth(st_)
+        if tr is not None and fresh[2] != tr:
+            ctx.count("fresh-operands-wrong-region")  # C01's business
+            return
+        if st_["op"] != "in" and one_sided_split(A, B, size, rational):
+            # contact configuration produced by the history itself: open
+            # finding (class decided from the live operands, see DESIGN)
+            ctx.count("one-sided-split-before-operator")
+            if ctx.known_class(case, KNOWN_CLASSES):
+                return
+        try:
+            with call_limit(300):
+                live = ask(A, B, st_)
+        except BaseException as exc:
+            ctx.violation("repeat", "raises-only-after-earlier-operators", case,
+                          "step %d %r: %r (fresh operands answer)" % (n, st_, exc), ("curved" if curved else "polygon") + ":" + st_["op"])
+            return
+        ok = live[0] == fresh[0] and (live[1] == fresh[1] if st_["op"] == "in" else
+                                      (abs(live[1] - fresh[1]) <= 1e-9 * size * size + (2.5e-4 * size * size if curved else 0.0) and live[2] == fresh[2]))
+        if not ok:
+            bad = ""
+            if st_["op"] != "in" and live[2] != fresh[2]:
+                i = [x != y for x, y in zip(live[2], fresh[2])].index(True)
+                bad = " point %r: %r, fresh %r" % (pts[i], live[2][i], fresh[2][i])
+            ctx.violation("repeat", "answer-depends-on-earlier-operators", case,
+                          "step %d %r after %r: %r/%r, fresh operands %r/%r%s" % (n, st_, ops[:n], live[0], live[1], fresh[0], fresh[1], bad),
+                          ("curved" if curved else "polygon") + ":" + st_["op"])
+            return
+
+
+def _on_segment_exact(p, a, b):
+    d, w = rg.sub(b, a), rg.sub(p, a)
+    if rg.cross(d, w) != 0:
+        return False
+    t = d[0] * w[0] + d[1] * w[1]
+    return 0 <= t <= d[0] * d[0] + d[1] * d[1]
+
+
+def one_sided_split(A, B, size, rational):
+    """the current control points of A and B are in the contact configuration
+    of the open operator finding: a vertex of one lies on the boundary of the
+    other without being a vertex of it (an earlier `-` or `~` split this
+    operand against a *copy* of the other one).  Crossing points that are
+    vertices of both operands are the library's normal form and not meant."""
+    tol = 0 if rational else 1e-7 * size
+    ca = lib.read_curves(A) if lib.kind_of(A) not in ("empty", "whole") else []
+    cb = lib.read_curves(B) if lib.kind_of(B) not in ("empty", "whole") else []
+    for X, Y in ((ca, cb), (cb, ca)):
+        yv = [sg[0] for c in Y for sg in c]
+        for c in X:
+            for sg in c:
+                v = sg[0]
+                if any(abs(float(v[0]) - float(w[0])) <= 1e-8 * size and abs(float(v[1]) - float(w[1])) <= 1e-8 * size for w in yv):
+                    continue
+                for cy in Y:
+                    if rational and rg.curve_is_polygon(cy):
+                        on = any(_on_segment_exact(rg.exp(v), rg.exp(e[0]), rg.exp(e[1])) for e in cy)
+                    else:
+                        on = not rg.curve_clear(cy, rg.fl(v), max(tol, 1e-7 * size))
+                    if on:
+                        return True
+    return False
+
+
+KNOWN_CLASSES = {"operand-split-against-a-copy-of-the-other": lambda case: True}
+
+
+@st.composite
+def repeat_cases(draw, curved=False):
+    pair = draw(oc.operand_pair(curved=curved, kinds=S.KINDS[2:]))
+    pair.pop("pre_a", None)
+    pair.pop("pre_b", None)
+    n = draw(st.integers(2, 4 if not curved else 3))
+    ops = [{"op": draw(st.sampled_from(["&", "|", "-", "-", "^", "in", "~"])), "swap": draw(st.booleans())} for _ in range(n)]
+    return {"a": pair["a"], "b": pair["b"], "us": pair["us"], "ops": ops}
+
+
 # ------------------------------------------------------------------ processes
 _RUNNER = r'''
 import sys, json, hashlib
@@ -312,5 +458,7 @@ def parts(tier):
     return [
         Part("histories", judge, history(False, maxlen=10), n=260 if q else 8000, budget_s=80 if q else 3000),
         Part("histories-curved", judge, history(True), n=24 if q else 400, budget_s=70 if q else 3000, shards=12),
+        Part("repeat", judge_repeat, repeat_cases(False), n=400 if q else 12000, budget_s=60 if q else 2400),
+        Part("repeat-curved", judge_repeat, repeat_cases(True), n=32 if q else 600, budget_s=60 if q else 2400, shards=16),
         Part("process", judge_process, history(False, maxlen=6), n=8 if q else 60, budget_s=60 if q else 1500, shards=4),
     ]
